@@ -99,10 +99,10 @@ func WriteToFileFunction(name string) ZlispUserFunction {
 			slice = sl.Val
 			for i := range slice {
 				s := slice[i].SexpString(nil)
-				if len(s) >= 2 && s[0] == '"' && s[len(s)-1] == '"' {
-					s = s[1 : len(s)-1]
-				} else if len(s) >= 2 && s[0] == '`' && s[len(s)-1] == '`' {
-					s = s[1 : len(s)-1]
+				if str, isStr := slice[i].(*SexpStr); isStr {
+					// write the string itself, not its escaped
+					// printed form with the outer quotes cut off
+					s = str.S
 				}
 				_, err = fmt.Fprintf(f, "%s\n", s)
 				if err != nil {
@@ -117,10 +117,11 @@ func WriteToFileFunction(name string) ZlispUserFunction {
 
 		default:
 			s := sl.SexpString(nil)
-			if len(s) >= 2 && s[0] == '"' && s[len(s)-1] == '"' {
-				s = s[1 : len(s)-1]
-			} else if len(s) >= 2 && s[0] == '`' && s[len(s)-1] == '`' {
-				s = s[1 : len(s)-1]
+			if str, isStr := sl.(*SexpStr); isStr {
+				// write the string itself, not its escaped printed
+				// form with the outer quotes cut off: (owritef (str v) f)
+				// must produce text that (source f) reads back as v
+				s = str.S
 			}
 			_, err = fmt.Fprintf(f, "%s\n", s)
 			if err != nil {
